@@ -30,6 +30,7 @@ import (
 	"runtime"
 	"strconv"
 	"strings"
+	"time"
 
 	"github.com/anishathalye/porcupine"
 
@@ -97,6 +98,10 @@ func doCase(run *ev.Run, st *stats, fams []enumFamily, idx int64) {
 	}
 	var rr *roundRec
 	var completed bool
+	t0 := time.Now()
+	defer func() {
+		st.CountN("wall_ms_by_family(load-dependent,informative)", spec.Family, time.Since(t0).Milliseconds())
+	}()
 	if pi := mon.Catch(func() { rr, completed = runRound(spec) }); pi != nil {
 		// library calls are caught inside the callers; a panic here is the harness's own
 		st.HarnessBug("panic in round executor: " + pi.Value + " at " + pi.Frame)
@@ -119,11 +124,13 @@ func doCase(run *ev.Run, st *stats, fams []enumFamily, idx int64) {
 		return
 	}
 	for _, ph := range rr.Phases {
+		left := ph.LeftBehind != "" || ph.Overlap != ""
 		for _, c := range ph.Calls {
-			if c.NeverReturned {
-				st.LeftBehind++ // (goroutines stay behind; every later dump of this process pays for them)
-				break
-			}
+			left = left || c.NeverReturned
+		}
+		if left {
+			st.LeftBehind++ // (goroutines stay behind; every later dump of this process pays for them)
+			st.Count("events", "phase_left_blocked_goroutines_behind")
 		}
 	}
 	var all []finding
@@ -172,6 +179,9 @@ func doCase(run *ev.Run, st *stats, fams []enumFamily, idx int64) {
 			}
 		default:
 			st.Count("porcupine", "timeout")
+			st.Count("porcupine_timeout_family", spec.Family)
+			st.Count("porcupine_timeout_case", fmt.Sprint(idx))
+			st.SampleKind("porcupine-timeout", map[string]any{"case": idx, "family": spec.Family, "operations": n})
 			st.Eval()
 			st.Inconclusive("porcupine timeout")
 		}
@@ -223,7 +233,8 @@ var mandatory = []string{"success:cache-hit-without-download", "success:after-re
 	"fault:non-200-answer-with-jwks-body-is-a-failed-download",
 	"cancel:parked-owner-returns-while-its-download-is-still-held",
 	"preempt:caller-held-inside-VerifySignature-while-another-arrives",
-	"single-flight:caller-preempted-before-joining-shares-the-download-in-flight"}
+	"single-flight:caller-preempted-before-joining-shares-the-download-in-flight",
+	"single-flight:herd-of->=4-preempted-callers-released-together"}
 
 // caseAt maps a position of the global case list (enumerated schedules first, then random rounds) to a case index.
 func caseAt(pos, nEnum int) int64 {
@@ -307,6 +318,17 @@ func main() {
 		nEnum += f.count
 	}
 	nRandom := run.N(3000, 40000)
+	if run.Tier != ev.Thorough {
+		porcupineTimeout = 20 * time.Second
+	}
+	if v := os.Getenv("C13_PRINT_SPEC"); v != "" {
+		// prints the schedule of one case (a pure function of seed, tier and index) and exits
+		idx, _ := strconv.ParseInt(v, 10, 64)
+		spec, ok := specOf(run, fams, idx)
+		b, _ := json.MarshalIndent(spec, "", " ")
+		fmt.Printf("case %d known=%v\n%s\n", idx, ok, b)
+		os.Exit(0)
+	}
 	if spec := os.Getenv("C13_WORKER"); spec != "" {
 		workerMain(run, fams, nEnum, nRandom, spec)
 	}
